@@ -19,7 +19,7 @@ from fractions import Fraction as Fr
 import numpy as np
 
 PROP = 'C10'
-TARGETS = ['T13o', 'T13e', 'T13w']
+TARGETS = ['T13o', 'T13e', 'T13w', 'TC10f']
 LEAN_MODULES = ['HdVerif.Props.C10']
 MODEL_MODULES = ['HdVerif.Model.Affine']
 NAMESPACE = 'HdVerif.C10'
